@@ -12,6 +12,11 @@
 //! undefined behaviour) runs in a child process (`vh masks-child`); a child that dies is the answer
 //! `crash` and an oracle violation with the replay, not the end of the stream.
 //!
+//! Oracle-only additions after the coverage review (notes/coverage-review/C11-C15.md, C12; counters say
+//! "oracle only"): `Group{holo::GS|GSPAT|LM}` (a partial filter reaches the iterative solvers under a mask; a
+//! panic of a floating-point class is a violation), failing packs re-run with `parallel = true`
+//! (schedule-independent facts), and the pressure of Greedy's drives masked vs restricted (numerical support).
+//!
 //! The op lines carry only integers / bit patterns; the Lean model (`Model/Mask.lean`) answers them.
 //! The oracle states the property on the implementation: the same operation on a geometry that
 //! contains only the enabled devices gives identical frames / aggregates, and nothing that belongs
@@ -31,7 +36,7 @@ use autd3_driver::{
     },
 };
 use autd3_gain_holo::{
-    Complex, EmissionConstraint, GS, GSOption, GSPAT, GSPATOption, Greedy, GreedyOption, HoloError, LinAlgBackend, MatrixX,
+    Complex, EmissionConstraint, GS, GSOption, GSPAT, GSPATOption, Greedy, GreedyOption, HoloError, LM, LMOption, LinAlgBackend, MatrixX,
     MatrixXc, NalgebraBackend, Naive, NaiveOption, Pa, Trans, VectorX, VectorXc,
 };
 use std::collections::HashMap;
@@ -498,6 +503,27 @@ fn frames_verdict(w: &W, before: &[TxMessage], masked: (&SendOut, &[TxMessage]),
         bad
 }
 
+/// (coverage review C12 gap 3) a FAILING pack under `parallel = true`: only the schedule-independent facts (DESIGN
+/// O4: which message ids of the enabled devices were advanced in the never-sent buffers depends on the schedule) —
+/// it fails with the serial error, after the same complete frames, and nothing of a disabled device is touched
+fn failing_parallel_verdict(w: &W, before: &[TxMessage], serial: &SendOut, par: &SendOut, ptx: &[TxMessage]) -> Option<String> {
+    if par.result != serial.result {
+        return Some(format!("pack(parallel = true) gives `{}`, the serial pack `{}`", par.result, serial.result));
+    }
+    if par.frames != serial.frames {
+        return Some(format!("pack(parallel = true) sends {} frames before failing / different ones, the serial pack {}", par.frames.len(), serial.frames.len()));
+    }
+    for i in 0..w.n() {
+        if !w.geo[i].enable && ptx[i].as_bytes() != before[i].as_bytes() {
+            return Some(format!(
+                "the failing pack(parallel = true) changed the tx buffer of disabled device {i} (msg id {} → {}, slot-2 offset {} → {})",
+                before[i].header.msg_id, ptx[i].header.msg_id, before[i].header.slot_2_offset, ptx[i].header.slot_2_offset
+            ));
+        }
+    }
+    None
+}
+
 /// a floating-point datagram class on both worlds (tx pre-filled from `seed`): (result, verdict)
 fn float_verdict<D, F>(w: &W, make: F) -> (SendOut, Vec<TxMessage>, Option<String>)
 where
@@ -515,7 +541,13 @@ where
     let (n, nr) = (tx.len(), rtx.len());
     let o = guarded(|| run_send(make(), geo, &mut tx, false)).unwrap_or_else(|p| SendOut::fail(format!("panic:{}", panic_key(&p)), n));
     let o_r = guarded(|| run_send(make(), &rg, &mut rtx, false)).unwrap_or_else(|p| SendOut::fail(format!("panic:{}", panic_key(&p)), nr));
-    let v = frames_verdict(w, &before, (&o, &tx), (&o_r, &rtx));
+    let mut v = frames_verdict(w, &before, (&o, &tx), (&o_r, &rtx));
+    // none of the floating-point classes of this stream has a legitimate panic: one that occurs alike with and
+    // without the disabled devices (e.g. a solver sizing its vectors by `geometry.num_transducers()` under a
+    // partial filter) must not pass as "same result"
+    if v.is_none() && o.result.starts_with("panic") {
+        v = Some(format!("the datagram panicked ({}), in the geometry of the enabled devices only: {}", o.result, o_r.result));
+    }
     (o, tx, v)
 }
 
@@ -530,10 +562,32 @@ fn holo_class_verdict(w: &W, name: &str, m: usize) -> Option<(SendOut, Vec<TxMes
         "holo::Naive" => float_verdict(w, || Naive::new(holo_foci(m), NaiveOption::default(), be())),
         "holo::GS" => float_verdict(w, || GS::new(holo_foci(m), GSOption::default(), be())),
         "holo::GSPAT" => float_verdict(w, || GSPAT::new(holo_foci(m), GSPATOption::default(), be())),
+        "holo::LM" => float_verdict(w, || LM::new(holo_foci(m), LMOption::default(), be())),
         "Group{holo::Naive}" => float_verdict(w, || {
             let mut gm = HashMap::new();
             gm.insert(0u8, Naive::new(holo_foci(m), NaiveOption::default(), be()));
             gm.insert(1u8, Naive::new(holo_foci(1), NaiveOption::default(), be()));
+            Group::new(|_dev: &Device| |tr: &Transducer| match tr.idx() % 3 { 0 => Some(0u8), 1 => Some(1u8), _ => None }, gm)
+        }),
+        // (coverage review C12 gap 1) the iterative solvers behind a Group: each receives a PARTIAL filter (a third of
+        // the transducers of every enabled device) under the mask — `n = cols_c(&g)` and `geometry.num_transducers()`
+        // differ only here
+        "Group{holo::GS}" => float_verdict(w, || {
+            let mut gm = HashMap::new();
+            gm.insert(0u8, GS::new(holo_foci(m), GSOption::default(), be()));
+            gm.insert(1u8, GS::new(holo_foci(1), GSOption::default(), be()));
+            Group::new(|_dev: &Device| |tr: &Transducer| match tr.idx() % 3 { 0 => Some(0u8), 1 => Some(1u8), _ => None }, gm)
+        }),
+        "Group{holo::GSPAT}" => float_verdict(w, || {
+            let mut gm = HashMap::new();
+            gm.insert(0u8, GSPAT::new(holo_foci(m), GSPATOption::default(), be()));
+            gm.insert(1u8, GSPAT::new(holo_foci(1), GSPATOption::default(), be()));
+            Group::new(|_dev: &Device| |tr: &Transducer| match tr.idx() % 3 { 0 => Some(0u8), 1 => Some(1u8), _ => None }, gm)
+        }),
+        "Group{holo::LM}" => float_verdict(w, || {
+            let mut gm = HashMap::new();
+            gm.insert(0u8, LM::new(holo_foci(m), LMOption::default(), be()));
+            gm.insert(1u8, LM::new(holo_foci(1), LMOption::default(), be()));
             Group::new(|_dev: &Device| |tr: &Transducer| match tr.idx() % 3 { 0 => Some(0u8), 1 => Some(1u8), _ => None }, gm)
         }),
         _ => return None,
@@ -542,7 +596,15 @@ fn holo_class_verdict(w: &W, name: &str, m: usize) -> Option<(SendOut, Vec<TxMes
 
 // ------------------------------------------------------------------------------------ the context
 
+/// Greedy's pressure is checked when at least this many transducers are selected (with a handful, 16 phase steps
+/// cannot hit half of the maximum)
+const GREEDY_MIN_SELECTED: usize = 100;
+/// |P_masked / P_restricted - 1| and |P_masked / request - 1| (measured on the unchanged code: see the distribution)
+const TH_GREEDY_MASK: f64 = 0.08;
+
 struct Ctx {
+    /// largest deviation seen by the Greedy pressure check
+    greedy_worst: f64,
     out: Out,
     /// kinds of which an actual case was already written to the evidence samples
     sampled: Vec<String>,
@@ -780,6 +842,20 @@ impl Ctx {
                     replay,
                 );
             }
+        } else if o.result.starts_with("err") {
+            let mut ptx = before.clone();
+            let o_p = match guarded(|| send_spec(spec, pair, &uids, geo, &mut ptx, true)) {
+                Ok(o) => o,
+                Err(p) => SendOut::fail(format!("panic:{}", panic_key(&p)), n),
+            };
+            self.out.count("parallel-pack-runs of a FAILING pack (oracle only)");
+            if let Some(b) = failing_parallel_verdict(w, &before, &o, &o_p, &ptx) {
+                self.out.violation(
+                    format!("send-parallel-failing:{kind}:n={}:mask={m}", w.n()),
+                    format!("datagram `{text}` (refused by pack), {} devices, enable mask {m}: {b}", w.n()),
+                    replay,
+                );
+            }
         }
         w.tx = tx;
     }
@@ -840,6 +916,21 @@ impl Ctx {
                 self.out.violation(
                     format!("mock-parallel:{tag}:n={}:mask={m}", w.n()),
                     format!("scripted operations ({tag}), enable mask {m}: pack(parallel = true) differs from the serial pack"),
+                    replay,
+                );
+            }
+        } else if o.result.starts_with("err") {
+            let mut ptx = before.clone();
+            let mut live_p = mk(&w.uids);
+            let o_p = match guarded(|| pack_loop(&mut live_p, geo, &mut ptx, rounds, true)) {
+                Ok(o) => o,
+                Err(p) => SendOut::fail(format!("panic:{}", panic_key(&p)), n),
+            };
+            self.out.count("parallel-pack-runs of a FAILING pack (oracle only)");
+            if let Some(b) = failing_parallel_verdict(w, &before, &o, &o_p, &ptx) {
+                self.out.violation(
+                    format!("mock-parallel-failing:{tag}:n={}:mask={m}", w.n()),
+                    format!("scripted operations ({tag}, one of them fails), enable mask {m}: {b}"),
                     replay,
                 );
             }
@@ -1222,6 +1313,42 @@ fn greedy_rows(geo: &Geometry, fm: Option<&HashMap<usize, BitVec>>) -> Vec<(usiz
         })
         .collect()
 }
+/// (coverage review C12 gap 2) the VALUES Greedy returns, not only which transducers it assigns: one target, request =
+/// half of what the selected transducers of the enabled devices deliver with all phases aligned (computed here, in
+/// f64, from `propagate`); answer = (request, pressure the returned drives produce at the target), both as f64 bits.
+/// A disabled device that took part in Greedy's accumulated field would show as a pressure shortfall.
+fn greedy_pressure(geo: &Geometry, fm: Option<&HashMap<usize, BitVec>>) -> String {
+    let target = foci_points(1)[0];
+    let selected = |dev: &Device, tr: &Transducer| fm.is_none_or(|f| f.get(&dev.idx()).is_some_and(|b| b[tr.idx()]));
+    let mut full = 0f64;
+    for dev in geo.devices() {
+        for tr in dev.iter().filter(|tr| selected(dev, tr)) {
+            full += propagate::<Sphere>(tr, dev.wavenumber(), dev.axial_direction(), &target).norm() as f64;
+        }
+    }
+    let request = (0.5 * full) as f32;
+    let g = Greedy::<Sphere>::new([(target, request * Pa)], GreedyOption::default());
+    let mut generator = g.init_full(geo, fm, false).expect("Greedy::init_full");
+    let (mut re, mut im) = (0f64, 0f64);
+    for dev in geo.devices() {
+        let c = generator.generate(dev);
+        for tr in dev.iter() {
+            let d = c.calc(tr);
+            let a = d.intensity.0 as f64 / 255.0;
+            let ph = d.phase.0 as f64 / 256.0 * 2.0 * std::f64::consts::PI;
+            let v = propagate::<Sphere>(tr, dev.wavenumber(), dev.axial_direction(), &target);
+            let (gr, gi) = (v.re as f64, v.im as f64);
+            re += a * (ph.cos() * gr - ph.sin() * gi);
+            im += a * (ph.cos() * gi + ph.sin() * gr);
+        }
+    }
+    format!("press {:016x} {:016x}", (request as f64).to_bits(), (re * re + im * im).sqrt().to_bits())
+}
+fn parse_press(t: &str) -> Option<(f64, f64)> {
+    let w: Vec<&str> = t.split(' ').collect();
+    let ["press", a, p] = w.as_slice() else { return None };
+    Some((f64::from_bits(u64::from_str_radix(a, 16).ok()?), f64::from_bits(u64::from_str_radix(p, 16).ok()?)))
+}
 fn rows_text(rows: &[(usize, Vec<bool>)]) -> String {
     format!("rows {}", rows.iter().map(|(i, b)| format!("{i}:{}", mask_str(b))).collect::<Vec<_>>().join(";"))
 }
@@ -1255,9 +1382,10 @@ fn child_answer(line: &str) -> String {
     }
     let (specs, mask, m, filter, restricted) = match w.as_slice() {
         ["H", s, k, m, f, r] => (*s, *k, m.parse::<usize>().ok(), *f, *r == "1"),
-        ["G", s, k, f, r] => (*s, *k, None, *f, *r == "1"),
+        ["G", s, k, f, r] | ["P", s, k, f, r] => (*s, *k, None, *f, *r == "1"),
         _ => return "bad-op".into(),
     };
+    let pressure = w[0] == "P";
     let Some(specs) = specs.split(';').map(parse_spec).collect::<Option<Vec<_>>>() else { return "bad-op".into() };
     let Some(f) = parse_filter(filter) else { return "bad-op".into() };
     let mut world = W::new_any(specs);
@@ -1271,6 +1399,7 @@ fn child_answer(line: &str) -> String {
     let fm = filter_map(&f, &positions, !restricted);
     let r = match m {
         Some(m) => guarded(|| obs_text(&holo_observe(geo, m, fm.as_ref()))),
+        None if pressure => guarded(|| greedy_pressure(geo, fm.as_ref())),
         None => guarded(|| rows_text(&greedy_rows(geo, fm.as_ref()))),
     };
     match r {
@@ -1341,7 +1470,7 @@ impl Ctx {
         let sent = writeln!(w.stdin, "{query}").and_then(|_| w.stdin.flush());
         let got = if sent.is_ok() { w.rx.recv_timeout(std::time::Duration::from_secs(120)).ok() } else { None };
         match got {
-            Some(a) if a.starts_with("obs ") || a.starts_with("rows ") || a.starts_with("verdict ") => Reply::Line(a),
+            Some(a) if a.starts_with("obs ") || a.starts_with("rows ") || a.starts_with("verdict ") || a.starts_with("press ") => Reply::Line(a),
             Some(a) if a.starts_with("panic ") => Reply::Panic(a[6..].to_string()),
             other => {
                 let mut w = self.worker.take().unwrap();
@@ -1521,6 +1650,34 @@ impl Ctx {
                     if a != b {
                         bad = Some("assignment differs from the geometry of the enabled devices only".into());
                     }
+                }
+            }
+        }
+        // the values (oracle only, NUMERICAL SUPPORT CHECK — Greedy shuffles with a thread-local RNG, its drives are not
+        // reproducible): the pressure at one target, requested at half of what the selected transducers can deliver,
+        // is the same with the disabled devices present and in the geometry of the enabled devices only
+        let selected: usize = rows.iter().map(|r| r.1.iter().filter(|b| **b).count()).sum();
+        if bad.is_none() && selected >= GREEDY_MIN_SELECTED {
+            let mut ps = vec![];
+            for restricted in [0, 1] {
+                let q = format!("P {} {} {restricted}", Ctx::world_query(w), filter_text(f));
+                match self.ask(&q) {
+                    Reply::Panic(p) => bad = Some(format!("pressure run (restricted = {restricted}) panicked: {p}")),
+                    Reply::Crash(st) => bad = Some(format!("pressure run (restricted = {restricted}): {st}")),
+                    Reply::Line(a) => ps.push(parse_press(&a).expect("press")),
+                }
+            }
+            if let [(a_m, p_m), (a_r, p_r)] = ps[..] {
+                self.out.count("greedy:pressure masked-vs-restricted (oracle only)");
+                let dev = (p_m / p_r - 1.0).abs().max((p_m / a_m - 1.0).abs());
+                self.greedy_worst = self.greedy_worst.max(dev);
+                if a_m.to_bits() != a_r.to_bits() {
+                    bad = Some(format!("the full-power reference differs ({a_m} vs {a_r} Pa): harness"));
+                } else if !((p_m / p_r - 1.0).abs() <= TH_GREEDY_MASK) || !((p_m / a_m - 1.0).abs() <= TH_GREEDY_MASK) {
+                    bad = Some(format!(
+                        "requested {a_m:.1} Pa (half of the aligned-phase pressure of the {selected} selected transducers): the drives deliver {p_m:.1} Pa ({:+.1} %) with the disabled devices present, {p_r:.1} Pa in the geometry of the enabled devices only",
+                        (p_m / a_m - 1.0) * 100.0
+                    ));
                 }
             }
         }
@@ -1820,6 +1977,13 @@ fn float_classes(ctx: &mut Ctx, w: &mut W, rng: &mut Rng, holo: bool) {
         ctx.float_holo(w, "holo::GSPAT", nd + 1, rng.below(1 << 30));
         // a holographic gain behind a Group: the filters reach `generate_propagation_matrix` / `generate_result`
         ctx.float_holo(w, "Group{holo::Naive}", 2, rng.below(1 << 30));
+        if w.n() <= 3 {
+            // the iterative solvers with a partial filter under the mask (foci count on both sides of the path switch)
+            ctx.float_holo(w, "Group{holo::GS}", 2, rng.below(1 << 30));
+            ctx.float_holo(w, "Group{holo::GSPAT}", nd + 1, rng.below(1 << 30));
+            ctx.float_holo(w, "Group{holo::LM}", 2, rng.below(1 << 30));
+            ctx.float_holo(w, "holo::LM", 1, rng.below(1 << 30));
+        }
     }
 }
 
@@ -1847,7 +2011,7 @@ pub fn run(args: &Args) {
 }
 
 fn run_inner(args: &Args) {
-    let mut ctx = Ctx { out: Out::new(&args.out), sampled: vec![], worker: None };
+    let mut ctx = Ctx { greedy_worst: 0.0, out: Out::new(&args.out), sampled: vec![], worker: None };
     let thorough = args.tier == "thorough";
     let mut rng = Rng::new(args.seed ^ 0xC12);
 
@@ -1953,8 +2117,10 @@ fn run_inner(args: &Args) {
             holo_cases(&mut ctx, w, &mut rng, r % 2 == 1, "random");
         }
     }
+    let worst = (ctx.greedy_worst * 1e4).round() as u64;
+    ctx.out.notes.push(format!("Greedy pressure check (oracle only, threshold {TH_GREEDY_MASK}): worst deviation seen x1e4 = {worst} (Greedy shuffles with rand::rng(): varies from run to run)"));
     ctx.out.finish(
         "masks",
-        "a case is one operation (aggregate, setter, reconfigure, datagram send, scripted pack, column map) under one enable mask of one geometry; non-trivial = at least one device disabled (setters, scripted packs and column maps always); distinct by (operation kind, generator, device count, mask[, filter])",
+        "a case is one operation (aggregate, setter, reconfigure, datagram send, scripted pack, column map) under one enable mask of one geometry; non-trivial = at least one device disabled (setters, scripted packs and column maps always); distinct by (operation kind, generator, device count, mask[, filter]). Oracle-only dimensions (no model line): float:* classes incl. Group{holo::GS/GSPAT/LM} (partial filter under the mask, n <= 3), `parallel-pack-runs of a FAILING pack` (sends refused by pack and broken scripted sets with parallel = true), `greedy:pressure masked-vs-restricted` (>= 100 selected transducers)",
     );
 }
